@@ -10,6 +10,9 @@
 //	prommatrix / promvector / promscalar   writeResponse of the Prometheus query controller (hook); batch = series,
 //	                   entry = point; the series labels (a slice, order fixed) are in Blbls
 //	promerror          PromError(500, items[0])
+//	trace / search / searchql   TempoController.Trace (JSON branch) / Search over a fake ITempoService; the pieces
+//	                   json.Marshal produces for every span / trace are computed by the harness (Items) and
+//	                   spliced by the model exactly as the controller does
 //	tags / tagvalues   TempoController.Tags / Values over a fake ITempoService
 //	labels / series    QueryLabelsService.GenericLabelReq / Series over scripted database/sql rows
 //
@@ -33,7 +36,11 @@ import (
 	"time"
 	"unicode/utf8"
 
+	"github.com/gorilla/mux"
 	jsoniter "github.com/json-iterator/go"
+	"github.com/metrico/qryn/reader/utils/unmarshal"
+	commonv1 "go.opentelemetry.io/proto/otlp/common/v1"
+	tracev1 "go.opentelemetry.io/proto/otlp/trace/v1"
 	"github.com/prometheus/prometheus/model/labels"
 	"github.com/prometheus/prometheus/promql"
 	controllerv1 "github.com/metrico/qryn/reader/controller"
@@ -62,6 +69,8 @@ type Case struct {
 	Class   string    `json:"class"`
 	Batches [][]Entry `json:"batches"`
 	Items   []string  `json:"items"` // list kinds: hex strings (tag names, label values, stored label documents)
+	Spans   []SpanSpec    `json:"spans,omitempty"`  // trace: the spans the fake service returns
+	Traces  [][]TraceSpec `json:"traces,omitempty"` // search / searchql: batches of traces
 	Blbls   [][][2]string `json:"blbls"` // Prometheus kinds: label slice of every batch (= series), hex
 	Order   []string  `json:"order"` // vector: fingerprints in the order of the result array (read back through the "id" label)
 	Out     string    `json:"out"`   // hex of the concatenated chunks
@@ -727,6 +736,275 @@ func goProm(c *Case, body string) string {
 	return "ok"
 }
 
+// ---------------------------------------------------------------------------------- tempo trace / search
+
+type SpanSpec struct {
+	TraceID string      `json:"tid"` // hex
+	SpanID  string      `json:"sid"`
+	Parent  string      `json:"pid"`
+	Name    string      `json:"name"` // hex
+	Start   uint64      `json:"start"`
+	End     uint64      `json:"end"`
+	Attrs   [][3]string `json:"attrs"` // hex key, kind (s,b,i,d,y), hex/decimal value
+	Events  [][2]string `json:"events"`
+	Status  int         `json:"status"` // 0 none, 1 ok, 2 error with message
+}
+type TraceSpec struct {
+	TraceID string `json:"tid"`
+	Svc     string `json:"svc"`  // hex
+	Name    string `json:"name"` // hex
+	Start   int64  `json:"start"`
+	Dur     int64  `json:"dur"`
+}
+
+func genSpan(r *rand.Rand) SpanSpec {
+	hexn := func(n int) string {
+		b := make([]byte, n)
+		r.Read(b)
+		return hx.Hex(string(b))
+	}
+	sp := SpanSpec{TraceID: hexn(16), SpanID: hexn(8), Name: hx.Hex(genBytes(r)), Start: uint64(genTs(r)), End: r.Uint64()}
+	switch r.Intn(3) {
+	case 0:
+		sp.Parent = hexn(8)
+	case 1:
+		sp.Parent = "0000000000000000"
+	}
+	for k := r.Intn(4); k > 0; k-- {
+		kind := "sbidy"[r.Intn(5)]
+		v := ""
+		switch kind {
+		case 's', 'y':
+			v = hx.Hex(genBytes(r))
+		case 'b':
+			v = []string{"true", "false"}[r.Intn(2)]
+		case 'i':
+			v = strconv.FormatInt(genTs(r), 10)
+		case 'd':
+			v = strconv.FormatFloat(genVal(r), 'g', -1, 64)
+		}
+		key := genKey(r)
+		if r.Intn(5) == 0 {
+			key = "service.name"
+		}
+		sp.Attrs = append(sp.Attrs, [3]string{hx.Hex(key), string(kind), v})
+	}
+	for k := r.Intn(3); k > 0; k-- {
+		sp.Events = append(sp.Events, [2]string{strconv.FormatUint(r.Uint64(), 10), hx.Hex(genBytes(r))})
+	}
+	sp.Status = r.Intn(3)
+	return sp
+}
+
+func toSpan(sp SpanSpec) *tracev1.Span {
+	res := &tracev1.Span{TraceId: []byte(hx.UnHex(sp.TraceID)), SpanId: []byte(hx.UnHex(sp.SpanID)), Name: hx.UnHex(sp.Name),
+		StartTimeUnixNano: sp.Start, EndTimeUnixNano: sp.End}
+	if sp.Parent != "" {
+		res.ParentSpanId = []byte(hx.UnHex(sp.Parent))
+	}
+	for _, a := range sp.Attrs {
+		kv := &commonv1.KeyValue{Key: hx.UnHex(a[0]), Value: &commonv1.AnyValue{}}
+		switch a[1] {
+		case "s":
+			kv.Value.Value = &commonv1.AnyValue_StringValue{StringValue: hx.UnHex(a[2])}
+		case "y":
+			kv.Value.Value = &commonv1.AnyValue_BytesValue{BytesValue: []byte(hx.UnHex(a[2]))}
+		case "b":
+			kv.Value.Value = &commonv1.AnyValue_BoolValue{BoolValue: a[2] == "true"}
+		case "i":
+			n, _ := strconv.ParseInt(a[2], 10, 64)
+			kv.Value.Value = &commonv1.AnyValue_IntValue{IntValue: n}
+		case "d":
+			f, _ := strconv.ParseFloat(a[2], 64)
+			kv.Value.Value = &commonv1.AnyValue_DoubleValue{DoubleValue: f}
+		}
+		res.Attributes = append(res.Attributes, kv)
+	}
+	for _, e := range sp.Events {
+		t, _ := strconv.ParseUint(e[0], 10, 64)
+		res.Events = append(res.Events, &tracev1.Span_Event{TimeUnixNano: t, Name: hx.UnHex(e[1])})
+	}
+	switch sp.Status {
+	case 1:
+		res.Status = &tracev1.Status{Code: tracev1.Status_STATUS_CODE_OK}
+	case 2:
+		res.Status = &tracev1.Status{Code: tracev1.Status_STATUS_CODE_ERROR, Message: "boom \"x\""}
+	}
+	return res
+}
+
+func genTempoCase(r *rand.Rand, id int, kind string) Case {
+	c := Case{ID: id, Kind: kind}
+	n := []int{0, 1, 1, 2, 3, 6}[r.Intn(6)]
+	c.Class = fmt.Sprintf("%d-items", n)
+	if kind == "trace" {
+		for i := 0; i < n; i++ {
+			c.Spans = append(c.Spans, genSpan(r))
+		}
+		return c
+	}
+	var flat []TraceSpec
+	for i := 0; i < n; i++ {
+		b := make([]byte, 16)
+		r.Read(b)
+		flat = append(flat, TraceSpec{TraceID: hx.Hex(string(b)), Svc: hx.Hex(genBytes(r)), Name: hx.Hex(genBytes(r)), Start: genTs(r), Dur: r.Int63n(100000)})
+	}
+	if kind == "search" {
+		c.Traces = [][]TraceSpec{flat}
+		return c
+	}
+	for len(flat) > 0 { // searchql: batches, some empty
+		if r.Intn(4) == 0 {
+			c.Traces = append(c.Traces, []TraceSpec{})
+		}
+		k := 1 + r.Intn(3)
+		if k > len(flat) {
+			k = len(flat)
+		}
+		c.Traces = append(c.Traces, flat[:k])
+		flat = flat[k:]
+	}
+	if r.Intn(3) == 0 {
+		c.Traces = append(c.Traces, []TraceSpec{})
+	}
+	return c
+}
+
+type fakeTempoT struct {
+	fakeTempo
+	c *Case
+}
+
+func (f *fakeTempoT) Query(ctx context.Context, startNS int64, endNS int64, traceId []byte, binIds bool) (chan *model.SpanResponse, error) {
+	ch := make(chan *model.SpanResponse)
+	go func() {
+		defer close(ch)
+		for _, sp := range f.c.Spans {
+			ch <- &model.SpanResponse{Span: toSpan(sp), ServiceName: "svc"}
+		}
+	}()
+	return ch, nil
+}
+func toTraceResponse(t TraceSpec) *model.TraceResponse {
+	return &model.TraceResponse{TraceID: t.TraceID, RootServiceName: hx.UnHex(t.Svc), RootTraceName: hx.UnHex(t.Name),
+		StartTimeUnixNano: t.Start, DurationMs: t.Dur}
+}
+func toTraceInfo(t TraceSpec) model.TraceInfo {
+	ti := model.TraceInfo{TraceID: t.TraceID, RootServiceName: hx.UnHex(t.Svc), RootTraceName: hx.UnHex(t.Name),
+		StartTimeUnixNano: strconv.FormatInt(t.Start, 10), DurationMs: float64(t.Dur) / 8}
+	si := model.SpanInfo{SpanID: t.TraceID[:16], StartTimeUnixNano: strconv.FormatInt(t.Start, 10), DurationNanos: strconv.FormatInt(t.Dur, 10)}
+	var a model.SpanAttr
+	a.Key = hx.UnHex(t.Name)
+	a.Value.StringValue = hx.UnHex(t.Svc)
+	si.Attributes = []model.SpanAttr{a}
+	ti.SpanSet = model.SpanSet{Spans: []model.SpanInfo{si}, Matched: 1}
+	ti.SpanSets = []model.SpanSet{ti.SpanSet}
+	return ti
+}
+func (f *fakeTempoT) Search(ctx context.Context, tags string, minDurationNS int64, maxDurationNS int64, limit int, fromNS int64, toNS int64) (chan *model.TraceResponse, error) {
+	ch := make(chan *model.TraceResponse)
+	go func() {
+		defer close(ch)
+		for _, b := range f.c.Traces {
+			for _, t := range b {
+				ch <- toTraceResponse(t)
+			}
+		}
+	}()
+	return ch, nil
+}
+func (f *fakeTempoT) SearchTraceQL(ctx context.Context, q string, limit int, from time.Time, to time.Time) (chan []model.TraceInfo, error) {
+	ch := make(chan []model.TraceInfo)
+	go func() {
+		defer close(ch)
+		for _, b := range f.c.Traces {
+			var tb []model.TraceInfo
+			for _, t := range b {
+				tb = append(tb, toTraceInfo(t))
+			}
+			ch <- tb
+		}
+	}()
+	return ch, nil
+}
+
+func runTempo(c *Case) string {
+	ctl := &controllerv1.TempoController{Service: &fakeTempoT{c: c}}
+	w := httptest.NewRecorder()
+	c.Items = nil
+	switch c.Kind {
+	case "trace":
+		for _, sp := range c.Spans {
+			b, err := json.Marshal(unmarshal.SpanToJSONSpan(toSpan(sp)))
+			if err != nil {
+				panic(err)
+			}
+			c.Items = append(c.Items, hx.Hex(string(b)))
+		}
+		r := httptest.NewRequest("GET", "/api/traces/x", nil)
+		r = mux.SetURLVars(r, map[string]string{"traceId": "0123456789abcdef0123456789abcdef"})
+		ctl.Trace(w, r)
+	case "search":
+		for _, b := range c.Traces {
+			for _, t := range b {
+				p, _ := json.Marshal(toTraceResponse(t))
+				c.Items = append(c.Items, hx.Hex(string(p)))
+			}
+		}
+		ctl.Search(w, httptest.NewRequest("GET", "/api/search?tags=a%3Db", nil))
+	case "searchql":
+		for _, b := range c.Traces {
+			for _, t := range b {
+				p, _ := json.Marshal(toTraceInfo(t))
+				c.Items = append(c.Items, hx.Hex(string(p)))
+			}
+		}
+		ctl.Search(w, httptest.NewRequest("GET", "/api/search?q=%7B%7D", nil))
+	}
+	return w.Body.String()
+}
+
+// goTempo: encoding/json parse: the spliced pieces, in order
+func goTempo(c *Case, body string) string {
+	var got []json.RawMessage
+	if c.Kind == "trace" {
+		var v struct {
+			ResourceSpans []struct {
+				Resource json.RawMessage `json:"resource"`
+				ILS      []struct {
+					Spans []json.RawMessage `json:"spans"`
+				} `json:"instrumentationLibrarySpans"`
+			} `json:"resourceSpans"`
+		}
+		if err := json.Unmarshal([]byte(body), &v); err != nil {
+			return "diff:decode: " + err.Error()
+		}
+		if len(v.ResourceSpans) != 1 || len(v.ResourceSpans[0].ILS) != 1 {
+			return "diff:envelope"
+		}
+		got = v.ResourceSpans[0].ILS[0].Spans
+	} else {
+		var v struct {
+			Traces []json.RawMessage `json:"traces"`
+		}
+		if err := json.Unmarshal([]byte(body), &v); err != nil {
+			return "diff:decode: " + err.Error()
+		}
+		got = v.Traces
+	}
+	if len(got) != len(c.Items) {
+		return fmt.Sprintf("diff:%d elements, want %d", len(got), len(c.Items))
+	}
+	for i, it := range c.Items {
+		if string(got[i]) != hx.UnHex(it) {
+			return fmt.Sprintf("diff:element %d", i)
+		}
+	}
+	return "ok"
+}
+
+var tempoKinds = map[string]bool{"trace": true, "search": true, "searchql": true}
+
 // ---------------------------------------------------------------------------------- list kinds
 
 var listKinds = map[string]bool{"tags": true, "tagvalues": true, "labels": true, "series": true}
@@ -1257,6 +1535,14 @@ func fillFloatTexts(c *Case) {
 }
 
 func run(c *Case) {
+	if tempoKinds[c.Kind] {
+		var body string
+		c.Panic = hx.Catch(func() { body = runTempo(c) })
+		c.Out = hx.Hex(body)
+		c.GoValid = json.Valid([]byte(body))
+		c.GoRows = goTempo(c, body)
+		return
+	}
 	if promKinds[c.Kind] {
 		var body string
 		c.NumLoss = ""
@@ -1362,12 +1648,15 @@ func main() {
 	r := hx.Rand(f.Seed)
 	mix := []string{"streams", "matrix", "tags", "prommatrix", "vector", "labels", "streams", "tail", "series", "promvector",
 		"streams", "tagvalues", "matrix", "vector", "labels", "prommatrix", "tail", "series", "promscalar", "promerror",
-		"streams", "matrix", "tags", "prommatrix", "streams", "tagvalues", "streams", "tail", "promvector", "matrix"}
+		"streams", "matrix", "tags", "prommatrix", "streams", "tagvalues", "streams", "tail", "promvector", "matrix",
+		"trace", "search", "searchql", "streams", "trace", "matrix", "vector", "labels", "series", "streams"}
 	cases := make([]Case, f.N)
 	var waits []func()
 	for i := 0; i < f.N; i++ {
 		kind := mix[i%len(mix)]
-		if promKinds[kind] {
+		if tempoKinds[kind] {
+			cases[i] = genTempoCase(r, i, kind)
+		} else if promKinds[kind] {
 			cases[i] = genPromCase(r, i, kind)
 		} else if listKinds[kind] {
 			cases[i] = genListCase(r, i, kind)
